@@ -3,12 +3,12 @@
 # Confirms a seeded change (tests pass with it, demo fails with / passes without), runs the property's quick check
 # against /repo with the change applied, reverts /repo, and stores the change under seeded/<id>/.
 set -u
-WT=$1; PROP=$2; ID=$3
+WT=$1; PROP=$2; ID=$3; PATCH=${4:-}; DEMO=${5:-DEMO.py}; NOTE=${6:-NOTE.md}
 cd /verif
 mkdir -p seeded/$ID
-git -C $WT diff -- dsdobjects > seeded/$ID/patch.diff
-cp $WT/DEMO.py seeded/$ID/demo.py 2>/dev/null
-cp $WT/NOTE.md seeded/$ID/note.md 2>/dev/null
+if [ -n "$PATCH" ]; then cp $WT/$PATCH seeded/$ID/patch.diff; else git -C $WT diff -- dsdobjects > seeded/$ID/patch.diff; fi
+cp $WT/$DEMO seeded/$ID/demo.py 2>/dev/null
+cp $WT/$NOTE seeded/$ID/note.md 2>/dev/null
 if [ ! -s seeded/$ID/patch.diff ]; then echo "EMPTY PATCH"; exit 3; fi
 # demo without the change (pristine /repo)
 ( cd /repo && PYTHONPATH=/repo timeout 300 /venv/bin/python /verif/seeded/$ID/demo.py >/tmp/demo_without.log 2>&1 ); D0=$?
